@@ -10,8 +10,8 @@
  *     from the solver's trace, V_ASSERT prints and exits 1, V_ASSUME exits 77
  *     (= "this replay does not satisfy the preconditions").
  *
- * Every symbolic input goes through vn_u64_raw(), which logs the value in
- * verif_in[] in call order; the driver reads that array out of the CBMC trace.
+ * Every symbolic input goes through vn_u64_raw(); the driver reads the values
+ * it returned, in call order, out of the CBMC trace.
  */
 #ifndef VERIF_H
 #define VERIF_H
@@ -20,12 +20,6 @@
 #include <stddef.h>
 #include <stdint.h>
 
-#ifndef VERIF_IN_MAX
-#define VERIF_IN_MAX 1024
-#endif
-
-extern uint64_t verif_in[VERIF_IN_MAX];
-extern unsigned verif_in_n;
 /* 1: an abort (failed assert() in mtbl) is a property violation (valid input);
  * 0: stopping is an acceptable outcome, the path just ends. */
 extern int verif_stop_is_violation;
@@ -45,11 +39,15 @@ uint64_t nondet_u64(void);
 #endif
 #define V_NOTE(...) ((void)0)
 
+/* The driver reads the sequence of values of verif_input_value out of the
+ * counterexample trace (assignments inside vn_u64_raw, in execution order).
+ * (An explicit log array was tried first: its index becomes symbolic as soon
+ * as the number of draws is path dependent, and every logged value then costs
+ * a 64 Kbit array update -- 1.3 M SAT variables for a 1800-step program.) */
 static inline uint64_t vn_u64_raw(void)
 {
-	uint64_t v = nondet_u64();
-	verif_in[verif_in_n++] = v;
-	return v;
+	uint64_t verif_input_value = nondet_u64();
+	return verif_input_value;
 }
 
 #else /* native replay */
